@@ -187,19 +187,22 @@ pub mod verif_exports {
         }
     }
 
-    /// Spawns a task with the real task state machine; `schedule` receives the
-    /// `Runnable` each time the task must be polled.
-    pub fn spawn<F>(
-        future: F,
-        schedule: fn(VRunnable, usize),
-        tag: usize,
-    ) -> (VPromise<F::Output>, VRunnable, VCancelToken)
+    /// The scheduling function of a task, as a type: the task state machine
+    /// requires scheduling functions without captured variables.
+    pub trait VSchedule: 'static {
+        /// Receives the `Runnable` each time the task must be polled.
+        fn schedule(runnable: VRunnable, tag: usize);
+    }
+
+    /// Spawns a task with the real task state machine.
+    pub fn spawn<F, S>(future: F, tag: usize) -> (VPromise<F::Output>, VRunnable, VCancelToken)
     where
         F: Future + Send + 'static,
         F::Output: Send + 'static,
+        S: VSchedule,
     {
         let (promise, runnable, cancel_token) =
-            task::spawn(future, move |r, t| schedule(VRunnable(r), t), tag);
+            task::spawn(future, |r, t| S::schedule(VRunnable(r), t), tag);
 
         (
             VPromise(promise),
@@ -208,17 +211,14 @@ pub mod verif_exports {
         )
     }
 
-    pub fn spawn_and_forget<F>(
-        future: F,
-        schedule: fn(VRunnable, usize),
-        tag: usize,
-    ) -> (VRunnable, VCancelToken)
+    pub fn spawn_and_forget<F, S>(future: F, tag: usize) -> (VRunnable, VCancelToken)
     where
         F: Future + Send + 'static,
         F::Output: Send + 'static,
+        S: VSchedule,
     {
         let (runnable, cancel_token) =
-            task::spawn_and_forget(future, move |r, t| schedule(VRunnable(r), t), tag);
+            task::spawn_and_forget(future, |r, t| S::schedule(VRunnable(r), t), tag);
 
         (VRunnable(runnable), VCancelToken(cancel_token))
     }
